@@ -13,6 +13,7 @@ mod report;
 mod rnd;
 mod rt;
 mod proxy;
+mod scen_c08;
 mod scen_c15;
 mod scen_link;
 mod scen_local;
@@ -29,6 +30,7 @@ fn generate(prop: &str, seed: u64, thorough: bool) -> Option<Plan> {
         "C01" => Some(scen_tcp::gen_c01(seed, thorough)),
         "C04" => Some(scen_link::gen_c04(seed, thorough)),
         "C05" => Some(scen_link::gen_c05(seed, thorough)),
+        "C08" => Some(scen_c08::gen_c08(seed, thorough)),
         "C13" => Some(scen_local::gen_c13(seed, thorough)),
         "C15" => Some(scen_c15::gen_c15(seed, thorough)),
         _ => None,
@@ -42,6 +44,7 @@ fn execute(plan: &Plan) -> Outcome {
         "link-tamper" => scen_link::execute_c05(plan),
         "local-hs" => scen_local::execute_c13(plan),
         "teardown" => scen_c15::execute_c15(plan),
+        "survival" => scen_c08::execute_c08(plan),
         other => {
             eprintln!("unknown scenario {other}");
             std::process::exit(2);
